@@ -25,6 +25,7 @@ enum Place {
     InSleep(u32), // inside the j-th back-off sleep
     At(i64),     // at this offset (ns) from the start of the call
     AtDeadline,
+    BeforeDeadline(i64), // this many ns before the deadline (inside the final back-off nap)
     Never,
 }
 
@@ -117,6 +118,7 @@ fn one(ctx: &mut Ctx, rng: &mut Rng, d_ns: i128, place: Place, code: u8) {
         }
         Place::At(off) => exit_off = Some(off),
         Place::AtDeadline => exit_off = Some(d_ns.min(i64::MAX as i128 / 4) as i64),
+        Place::BeforeDeadline(x) => exit_off = Some((d_ns.min(i64::MAX as i128 / 4) as i64 - x).max(1)),
         Place::Never => {}
     }
     let wait_before = plan::count(plan::SCOPE_PARENT, k::WAIT4);
@@ -163,9 +165,11 @@ fn one(ctx: &mut Ctx, rng: &mut Rng, d_ns: i128, place: Place, code: u8) {
                     ctx.violation(&format!("C11/late-timeout/{}", label), "wait_timeout reported 'still running' later than the duration plus a small slack", w.clone());
                 }
                 // the child must really have been running at the deadline (an exit planned clearly before it has to be noticed)
+                // (an exit within the oversleep jitter of the deadline may legitimately go either way; anything earlier
+                // had happened by the time the call returned and a final status check must have seen it)
                 if let Some(off) = exit_off {
-                    if place != Place::AtDeadline && (off as i128) < d_ns - 101 * MS as i128 - JITTER as i128 {
-                        ctx.violation(&format!("C11/missed-exit/{}", label), "the child exited well before the deadline but 'still running' was reported", w.clone());
+                    if place != Place::AtDeadline && (off as i128) < d_ns - 5 * MS as i128 - JITTER as i128 {
+                        ctx.violation(&format!("C11/missed-exit/{}", label), "the child exited before the deadline (by more than the timing slack) but 'still running' was reported", w.clone());
                     }
                 }
                 if matches!(place, Place::Before | Place::Known) {
@@ -244,6 +248,15 @@ pub fn run(ctx: &mut Ctx) {
             let (st, len) = backoff_start(j);
             if (st + len) as i128 + 3 * MS as i128 <= d {
                 plan_list.push((d, name.to_string(), Place::InSleep(j)));
+            }
+        }
+        // inside the final nap before the deadline
+        for x in [8 * MS, 30 * MS, 70 * MS, 95 * MS] {
+            if (x as i128) * 2 < d && d <= 26 * 86400 * s {
+                if d > 3600 * s {
+                    continue; // (would need one loop iteration per 100 ms of d)
+                }
+                plan_list.push((d, name.to_string(), Place::BeforeDeadline(x)));
             }
         }
         // far into the wait: hours/days after the call
